@@ -114,4 +114,14 @@ theorem htlc_sigs_parse (sfc : Nat → Option Nat) (l : List (BitcoinSignature N
     simp only [List.mapM_cons, hb, Rs.assert, he, Rs.unwrap, if_true, Rs.bind_ok, Rs.pure_eq] at h1 ⊢
     rw [h1]; rfl
 
+/-- a holder signature in the reply of `sign_holder_commitment_tx_phase2(n)` is for `n` -/
+theorem signHolder_signed (c : Chan) (n : Nat) :
+    (signHolder c n).out.res = .ok → (signHolder c n).out.signed = some n := by
+  unfold signHolder
+  split
+  · simp [fail]
+  · split
+    · simp [fail]
+    · split <;> simp [fail]
+
 end VlsModel.Lemmas.HandlerFn
